@@ -38,11 +38,25 @@
         -> string_token_is_rfc8259, parse_string_literal_rfc8259, unicode_append_is_rfc3629,
            parse_value_fuel_from_any_state
 
-   Modelled as reference functions (libc): printf("%d"/"%lld") = print_dec, atoll = ref_atoll,
-   sscanf("%x") on four hex digits = positional value, strpbrk = find_one_of.  Doubles are outside the
-   property (kept as opaque text).  *)
+   EXTENSION beyond the class of the property (the property names null, booleans, signed integers,
+   strings, lists, maps; Json::toString also writes unsigned integers and arrays - Json.cpp:420-423, 476-497):
+        -> ext_parse_toString_readback (every tree that may also hold uint / uint64 / Array<Variant>:
+           parse (toString v) = readback v), ext_class_contains_property_class (on the class of the
+           property this is parse_toString_roundtrip), ext_array_comes_back_as_list (and Variant's ==
+           does not call the two equal), ext_uint_comes_back_signed_and_equal,
+           ext_uint64_comes_back_equal_below_2p63, ext_uint64_saturates_from_2p63 (NOT equal),
+           ext_atoll_printf_saturates
+
+   Dead code (Json.cpp:135-136, 152-153 `if(k.scanf("%x", &w) != 1) return ... "Expected hexadecimal number"`):
+        -> hex4_scan_never_fails (sscanf %x = JsonModel.scanf_hex on four bytes accepted by isHexDigit
+           always converts, to the positional value), hex_quad_is_positional_value,
+           parse_never_reports_hexadecimal_number (no text makes parse report that message)
+
+   Modelled as reference functions (libc): printf("%d"/"%lld"/"%u"/"%llu") = print_dec, atoll = ref_atoll,
+   sscanf("%x") = scanf_hex (white space, sign, 0x prefix, digit run), strpbrk = find_one_of.  Doubles
+   are outside the property (kept as opaque text).  *)
 From Coq Require Import ZArith List Bool.
-From Json Require Import JsonSpec JsonModel JsonProofsBase JsonProofsTotal JsonProofsStrip JsonProofsRound JsonProofsRfc JsonProofsReuse.
+From Json Require Import JsonSpec JsonModel JsonProofsBase JsonProofsHex JsonProofsTotal JsonProofsStrip JsonProofsRound JsonProofsRfc JsonProofsReuse.
 Import ListNotations.
 Local Open Scope Z_scope.
 
@@ -103,6 +117,61 @@ Theorem parse_toString_identical_when_canonical :
   forall v, canonical v = true -> canon v = v.
 Proof. exact canon_canonical. Qed.
 Print Assumptions parse_toString_identical_when_canonical.
+
+(* ---- EXTENSION beyond the class of the property: unsigned integers and arrays through toString and parse ---- *)
+Theorem ext_parse_toString_readback :
+  forall v, in_ext v = true -> parse (to_string v) = POk (readback v).
+Proof. exact parse_to_string_ext. Qed.
+Print Assumptions ext_parse_toString_readback.
+
+Theorem ext_class_contains_property_class :
+  forall v, in_class v = true -> in_ext v = true /\ readback v = canon v.
+Proof. exact in_class_ext. Qed.
+Print Assumptions ext_class_contains_property_class.
+
+Theorem ext_array_comes_back_as_list :
+  forall l, readback (JArray l) = JList (map readback l) /\ value_eq (JArray l) (readback (JArray l)) = false.
+Proof. exact (fun l => conj eq_refl (value_eq_array_list l (map readback l))). Qed.
+Print Assumptions ext_array_comes_back_as_list.
+
+Theorem ext_uint_comes_back_signed_and_equal :
+  forall z, in_ext (JUInt z) = true ->
+    readback (JUInt z) = (if z <=? 2147483647 then JInt z else JInt64 z) /\
+    value_eq (JUInt z) (readback (JUInt z)) = true.
+Proof. exact readback_uint. Qed.
+Print Assumptions ext_uint_comes_back_signed_and_equal.
+
+Theorem ext_uint64_comes_back_equal_below_2p63 :
+  forall z, 0 <= z <= 9223372036854775807 ->
+    readback (JUInt64 z) = narrow z /\ value_eq (JUInt64 z) (readback (JUInt64 z)) = true.
+Proof. exact readback_uint64_small. Qed.
+Print Assumptions ext_uint64_comes_back_equal_below_2p63.
+
+Theorem ext_uint64_saturates_from_2p63 :
+  forall z, 9223372036854775807 < z ->
+    readback (JUInt64 z) = JInt64 9223372036854775807 /\ value_eq (JUInt64 z) (readback (JUInt64 z)) = false.
+Proof. exact readback_uint64_big. Qed.
+Print Assumptions ext_uint64_saturates_from_2p63.
+
+Theorem ext_atoll_printf_saturates : forall z, ref_atoll (print_dec z) = clamp64 z.
+Proof. exact ref_atoll_print_dec_sat. Qed.
+Print Assumptions ext_atoll_printf_saturates.
+
+(* ---- the two `k.scanf("%x", &w) != 1` tests of readToken are never true ---- *)
+Theorem hex4_scan_never_fails :
+  forall k, length k = 4%nat -> Forall (fun c => is_hex c = true) k ->
+    scanf_hex k = Some (fold_left (fun a c => 16 * a + hexval c) k 0).
+Proof. exact hex4_scan. Qed.
+Print Assumptions hex4_scan_never_fails.
+
+Theorem hex_quad_is_positional_value : forall l r, hex_quad l r = hexn 4 l r 0.
+Proof. exact hex_quad_eq. Qed.
+Print Assumptions hex_quad_is_positional_value.
+
+Theorem parse_never_reports_hexadecimal_number :
+  forall s l c, parse s <> PErr l c E_hexnumber.
+Proof. exact parse_never_hexnumber. Qed.
+Print Assumptions parse_never_reports_hexadecimal_number.
 
 (* ---- the string tokenizer against RFC 8259 / RFC 3629 (JsonSpec.ref_string, JsonSpec.utf8) ---- *)
 Theorem string_token_is_rfc8259 :
@@ -240,6 +309,30 @@ Proof. vm_compute. reflexivity. Qed.
 Example ex_tree_roundtrip : parse (to_string ex_tree) = POk ex_tree /\ canonical ex_tree = true.
 Proof. vm_compute. split; reflexivity. Qed.
 Example ex_int64_small : parse (to_string (JInt64 5)) = POk (JInt 5) /\ value_eq (JInt64 5) (JInt 5) = true.
+Proof. vm_compute. split; reflexivity. Qed.
+
+(* EXTENSION: an array holding unsigned integers at the boundaries, nested in a map: the array comes back
+   as a list, 2^31 and 2^32-1 as int64, 2^64-1 as the largest int64 *)
+Definition ex_ext_tree : value :=
+  JMap [([97], JArray [JUInt 7; JUInt 2147483648; JUInt 4294967295; JUInt64 9223372036854775807;
+                      JUInt64 18446744073709551615; JArray []; JList [JUInt64 5]])].
+Example ex_ext_in_class : in_ext ex_ext_tree = true /\ in_class ex_ext_tree = false.
+Proof. vm_compute. split; reflexivity. Qed.
+Example ex_ext_roundtrip :
+  parse (to_string ex_ext_tree)
+  = POk (JMap [([97], JList [JInt 7; JInt64 2147483648; JInt64 4294967295; JInt64 9223372036854775807;
+                           JInt64 9223372036854775807; JList []; JList [JInt 5]])]).
+Proof. vm_compute. reflexivity. Qed.
+(* sscanf %x as modelled does fail on other texts (no digit), accepts sign and prefix; on four hex digits
+   it is the positional value: 00e9 -> 233, FFFF -> 65535 *)
+Example ex_scanf_hex :
+  scanf_hex [120; 121] = None /\ scanf_hex [] = None /\ scanf_hex [32; 45] = None /\
+  scanf_hex [32; 48; 120; 49; 70; 122] = Some 31 /\ scanf_hex [45; 49] = Some 4294967295 /\
+  scanf_hex [48; 48; 101; 57] = Some 233 /\ scanf_hex [70; 70; 70; 70] = Some 65535 /\
+  scanf_hex [49; 48; 48; 48; 48; 48; 48; 48; 49] = Some 1.
+Proof. vm_compute. repeat (split; [reflexivity|]). reflexivity. Qed.
+Example ex_hex_quad : hex_quad 1 [48; 48; 101; 57; 34] = Ok (233, [34]) /\
+                      hex_quad 1 [48; 48; 103] = SyntaxErr 1 [103] E_hexdigit.
 Proof. vm_compute. split; reflexivity. Qed.
 
 (* a, a block comment holding a lone star, b, a string literal holding two slashes, a line comment, LF, d:
